@@ -6,7 +6,7 @@ import PoxModel.Proofs.PacketLayout
 and checksum fields.  Core only.
 -/
 namespace Pox.Packet
-open Pox Pox.Layout Pox.Checksum
+open Pox Pox.PktLayout Pox.Checksum
 
 /-! ## small tools -/
 
